@@ -770,16 +770,44 @@ func newIndex(vals []reflect.Value, c ReflectListComparator) *index {
 }
 
 func reflectCompare(a, b reflect.Value) bool {
-	if a.CanInt() {
+	return reflectLess(a, b)
+}
+
+// reflectLess orders the keys of a Go map that holds a list so that its rows come in a stable
+// order. The keys of a map[interface{}]... , which is what gets created for key types without a
+// Go map type of their own, can be of any comparable type: unsigned, bool, val.Enum, val.IdentRef
+// and, for a union key, of several types in one map.
+func reflectLess(a, b reflect.Value) bool {
+	for a.Kind() == reflect.Interface && !a.IsNil() {
+		a = a.Elem()
+	}
+	for b.Kind() == reflect.Interface && !b.IsNil() {
+		b = b.Elem()
+	}
+	if a.Kind() != b.Kind() {
+		return a.Kind() < b.Kind()
+	}
+	switch a.Kind() {
+	case reflect.Int, reflect.Int8, reflect.Int16, reflect.Int32, reflect.Int64:
 		return a.Int() < b.Int()
-	}
-	if a.CanFloat() {
+	case reflect.Uint, reflect.Uint8, reflect.Uint16, reflect.Uint32, reflect.Uint64:
+		return a.Uint() < b.Uint()
+	case reflect.Float32, reflect.Float64:
 		return a.Float() < b.Float()
-	}
-	if a.Kind() == reflect.String {
+	case reflect.String:
 		return a.String() < b.String()
+	case reflect.Bool:
+		return !a.Bool() && b.Bool()
 	}
-	panic(fmt.Sprintf("cannot compare %s. you must set comparator or implement your own list handler", a.Type()))
+	if a.CanInterface() && b.CanInterface() {
+		if x, isEnum := a.Interface().(val.Enum); isEnum {
+			if y, isEnum := b.Interface().(val.Enum); isEnum {
+				return x.Id < y.Id
+			}
+		}
+		return fmt.Sprint(a.Interface()) < fmt.Sprint(b.Interface())
+	}
+	return false
 }
 
 func (ndx *index) Len() int {
